@@ -149,6 +149,44 @@ IasMachRim(j) ==
   ELSE IF j < 474 THEN [ias |-> 150, mach |-> 126 + (j - 349)]
   ELSE [ias |-> 1 + (j - 474), mach |-> 125]
 
+RimTT50Single(a, i) ==
+  LET q == i % 16
+      rv == <<RollMax50, -RollMax50, RollMax50 - 1, -(RollMax50 - 1)>>[1 + (q % 4)]
+      e == Enc9(rv)
+      gv == <<GsMax50, GsMax50 - 1>>[1 + (q % 2)]
+      tv == <<TasMin50, TasMin50 + 1, TasMax50 - 1, TasMax50>>[1 + (q % 4)]
+  IN CASE q < 4 -> <<"tt50", [rs |-> 1, rsg |-> e.sg, roll |-> e.m, trs |-> 0, trsg |-> 0, rate |-> 0]
+                             @@ Fill50(a, i)>>
+       [] q \in 4..7 -> <<"tt50", [rs |-> 1, rsg |-> e.sg, roll |-> e.m, trs |-> 1, trsg |-> e.sg,
+                                   rate |-> IF e.sg = 0 THEN R(a, i, 40, 100) ELSE Neg9(R(a, i, 40, 99))]
+                                  @@ Fill50(a, i)>>
+       [] q \in 8..9 -> <<"tt50", [gss |-> 1, gs |-> gv, tass |-> 0, tas |-> 0] @@ Fill50(a, i)>>
+       [] q \in 10..11 -> <<"tt50", [gss |-> 1, gs |-> gv, tass |-> 1, tas |-> 200 + R(a, i, 40, 51)]
+                                    @@ Fill50(a, i)>>
+       [] q \in 12..15 -> <<"tt50", [tass |-> 1, tas |-> tv, gss |-> 1,
+                                     gs |-> Clip(tv - 20 + R(a, i, 40, 41), 0, 300)] @@ Fill50(a, i)>>
+RimHS60Single(a, i) ==
+  LET q == i % 24
+      iv == <<1, 2, IasMax60 - 1, IasMax60>>[1 + (q % 4)]
+      mv == <<1, 2, MachMax60 - 1, MachMax60>>[1 + (q % 4)]
+      e == Enc9(<<VRateMax60, -VRateMax60, VRateMax60 - 1, -(VRateMax60 - 1)>>[1 + (q % 4)])
+  IN CASE q < 4 -> <<"hs60", [iss |-> 1, ias |-> iv, mas |-> 0, mach |-> 0] @@ Fill60(a, i)>>
+       [] q \in 4..7 -> <<"hs60", [iss |-> 1, ias |-> iv, mas |-> 1,
+                                   mach |-> IF iv < 150 THEN 1 + R(a, i, 40, 125) ELSE 100 + R(a, i, 40, 151)]
+                                  @@ Fill60(a, i)>>
+       [] q \in 8..11 -> <<"hs60", [mas |-> 1, mach |-> mv, iss |-> 0, ias |-> 0] @@ Fill60(a, i)>>
+       [] q \in 12..15 -> <<"hs60", [mas |-> 1, mach |-> mv, iss |-> 1,
+                                     ias |-> IF mv < 100 THEN 1 + R(a, i, 40, 250) ELSE 150 + R(a, i, 40, 351)]
+                                    @@ Fill60(a, i)>>
+       [] q \in 16..19 -> <<"hs60", [bs |-> 1, bsg |-> e.sg, baro |-> e.m] @@ Fill60(a, i)>>
+       [] q \in 20..23 -> <<"hs60", [vs |-> 1, vsg |-> e.sg, ivv |-> e.m] @@ Fill60(a, i)>>
+RimVI40(a, i) ==
+  LET q == i % 8
+      nv == <<Alt40Max, Alt40Max - 6>>[1 + (q % 2)]       \* 44992 ft and 44896 ft, both on the grid
+  IN IF (q \div 2) % 2 = 0
+     THEN <<"vi40", [df |-> 20 + q \div 4, ms |-> 1, malt |-> nv] @@ Fill40(a, i)>>
+     ELSE <<"vi40", [df |-> 20 + q \div 4, fst |-> 1, falt |-> nv] @@ Fill40(a, i)>>
+
 Make(name, a, i) ==
   CASE name = "ap05.alt.baro" ->
          <<"ap05", [tc |-> 9 + R(a, 0, 40, 10), alt |-> i] @@ Fill05(a, i)>>
@@ -248,46 +286,12 @@ Make(name, a, i) ==
          LET p == RollRateRim(i \div 2) IN
          <<"tt50", [rs |-> 1, rsg |-> p.rsg, roll |-> p.roll, trs |-> 1, trsg |-> p.trsg, rate |-> p.rate]
                    @@ Fill50(a, i)>>
-    [] name = "tt50.rim.single" ->
-         LET q == i % 16
-             rv == <<RollMax50, -RollMax50, RollMax50 - 1, -(RollMax50 - 1)>>[1 + (q % 4)]
-             e == Enc9(rv)
-             gv == <<GsMax50, GsMax50 - 1>>[1 + (q % 2)]
-             tv == <<TasMin50, TasMin50 + 1, TasMax50 - 1, TasMax50>>[1 + (q % 4)]
-         IN CASE q < 4 -> <<"tt50", [rs |-> 1, rsg |-> e.sg, roll |-> e.m, trs |-> 0, trsg |-> 0, rate |-> 0]
-                                    @@ Fill50(a, i)>>
-              [] q \in 4..7 -> <<"tt50", [rs |-> 1, rsg |-> e.sg, roll |-> e.m, trs |-> 1, trsg |-> e.sg,
-                                          rate |-> IF e.sg = 0 THEN R(a, i, 40, 100) ELSE Neg9(R(a, i, 40, 99))]
-                                         @@ Fill50(a, i)>>
-              [] q \in 8..9 -> <<"tt50", [gss |-> 1, gs |-> gv, tass |-> 0, tas |-> 0] @@ Fill50(a, i)>>
-              [] q \in 10..11 -> <<"tt50", [gss |-> 1, gs |-> gv, tass |-> 1, tas |-> 200 + R(a, i, 40, 51)]
-                                           @@ Fill50(a, i)>>
-              [] q \in 12..15 -> <<"tt50", [tass |-> 1, tas |-> tv, gss |-> 1,
-                                            gs |-> Clip(tv - 20 + R(a, i, 40, 41), 0, 300)] @@ Fill50(a, i)>>
+    [] name = "tt50.rim.single" -> RimTT50Single(a, i)
     [] name = "hs60.rim.iasmach" ->
          LET p == IasMachRim(i \div 2) IN
          <<"hs60", [iss |-> 1, ias |-> p.ias, mas |-> 1, mach |-> p.mach] @@ Fill60(a, i)>>
-    [] name = "hs60.rim.single" ->
-         LET q == i % 24
-             iv == <<1, 2, IasMax60 - 1, IasMax60>>[1 + (q % 4)]
-             mv == <<1, 2, MachMax60 - 1, MachMax60>>[1 + (q % 4)]
-             e == Enc9(<<VRateMax60, -VRateMax60, VRateMax60 - 1, -(VRateMax60 - 1)>>[1 + (q % 4)])
-         IN CASE q < 4 -> <<"hs60", [iss |-> 1, ias |-> iv, mas |-> 0, mach |-> 0] @@ Fill60(a, i)>>
-              [] q \in 4..7 -> <<"hs60", [iss |-> 1, ias |-> iv, mas |-> 1,
-                                          mach |-> IF iv < 150 THEN 1 + R(a, i, 40, 125) ELSE 100 + R(a, i, 40, 151)]
-                                         @@ Fill60(a, i)>>
-              [] q \in 8..11 -> <<"hs60", [mas |-> 1, mach |-> mv, iss |-> 0, ias |-> 0] @@ Fill60(a, i)>>
-              [] q \in 12..15 -> <<"hs60", [mas |-> 1, mach |-> mv, iss |-> 1,
-                                            ias |-> IF mv < 100 THEN 1 + R(a, i, 40, 250) ELSE 150 + R(a, i, 40, 351)]
-                                           @@ Fill60(a, i)>>
-              [] q \in 16..19 -> <<"hs60", [bs |-> 1, bsg |-> e.sg, baro |-> e.m] @@ Fill60(a, i)>>
-              [] q \in 20..23 -> <<"hs60", [vs |-> 1, vsg |-> e.sg, ivv |-> e.m] @@ Fill60(a, i)>>
-    [] name = "vi40.rim" ->
-         LET q == i % 8
-             nv == <<Alt40Max, Alt40Max - 6>>[1 + (q % 2)]       \* 44992 ft and 44896 ft, both on the grid
-         IN IF (q \div 2) % 2 = 0
-            THEN <<"vi40", [df |-> 20 + q \div 4, ms |-> 1, malt |-> nv] @@ Fill40(a, i)>>
-            ELSE <<"vi40", [df |-> 20 + q \div 4, fst |-> 1, falt |-> nv] @@ Fill40(a, i)>>
+    [] name = "hs60.rim.single" -> RimHS60Single(a, i)
+    [] name = "vi40.rim" -> RimVI40(a, i)
     [] name = "addr" ->
          LET w == i \div 64  ad == AddrAt(a, i, i % 64) IN
          (CASE w = 0 -> <<"aa11", [ca |-> 4 + R(a, i, 1, 4), aa |-> ad]>>
